@@ -3,7 +3,7 @@
    The model (Evo/Evo.v + C07/Model.v) is tied to /repo by the correspondence check of harness/c07.py. *)
 From Coq Require Import List NArith QArith Bool Ascii Lia.
 Import ListNotations.
-From AgileV Require Import Evo.Heap Evo.Evo Evo.EvoProofs C07.Model C07.Proofs C07.ProofsAbs C07.ProofsInv C07.ProofsShare C07.ProofsHist C07.ProofsPrefix C07.ProofsHidden.
+From AgileV Require Import Evo.Heap Evo.Evo Evo.EvoProofs C07.Model C07.Proofs C07.ProofsAbs C07.ProofsInv C07.ProofsShare C07.ProofsHist C07.ProofsPrefix C07.ProofsHidden C07.ProofsIdem.
 Open Scope N_scope.
 
 (* LOAD_SAVE_ABS — for every agent a (ANY architecture descriptors, block sizes, contents, optimizers, hyper-parameters,
@@ -311,6 +311,41 @@ Theorem share_hidden_lost_refuted :
     map (rd (fst r)) (blk (snd r) (2, cHenc)) <> map (rd (fst r)) (blk (snd r) (1, cEnc)).
 Proof. exact share_hidden_lost_refuted_lemma. Qed.
 Print Assumptions share_hidden_lost_refuted.
+
+(* ROLL-BACK — restoring a well-formed file, then ANY agent-local operation f on the restored agent that keeps the block keys (learn,
+   score, act, every mutation kind, another load_checkpoint ...), then restoring the SAME file again: the agent has the view
+   stored in the file again, whatever f did. *)
+Theorem restore_again : forall (b : blob) (x0 : lstate) (f : lstate -> lstate),
+  okst x0 -> bfree (bl_blocks b) x0 -> map fst (a_blocks (snd x0)) = map fst (bl_blocks b) ->
+  blob_ok b -> no_share (a_reg (snd x0)) = true ->
+  local_ok f -> keys_ok f -> no_share (a_reg (snd (f (restore b x0)))) = true ->
+  abs (fst (restore b (f (restore b x0)))) (snd (restore b (f (restore b x0)))) = blob_view (fst x0) b.
+Proof. exact restore_again_lemma. Qed.
+Print Assumptions restore_again.
+
+(* IDENTICAL CONSECUTIVE CALLS — restoring the same file twice in a row is the same as restoring it once. *)
+Theorem restore_idempotent : forall (b : blob) (x0 : lstate),
+  okst x0 -> bfree (bl_blocks b) x0 -> map fst (a_blocks (snd x0)) = map fst (bl_blocks b) ->
+  blob_ok b -> no_share (a_reg (snd x0)) = true -> no_share (bl_reg b) = true ->
+  abs (fst (restore b (restore b x0))) (snd (restore b (restore b x0))) = abs (fst (restore b x0)) (snd (restore b x0)).
+Proof. exact restore_idempotent_lemma. Qed.
+Print Assumptions restore_idempotent.
+
+(* ... and two consecutive saves of the same agent write files with the same view. *)
+Theorem save_twice : forall (s : store) (a : agent),
+  savable a = true -> no_hidden a = true -> Forall (fun l => l < s_next s) (agent_locs a) ->
+  let r1 := save s a in let r2 := save (fst r1) a in
+  blob_view (fst r2) (snd r2) = blob_view (fst r1) (snd r1).
+Proof. exact save_twice_lemma. Qed.
+Print Assumptions save_twice.
+
+(* non-vacuity (computed on the DQN-like agent): save twice, load the second file, train, roll back with the first file *)
+Example save_twice_restore_again_computed :
+  let r1 := save store_dqn agent_dqn in let r2 := save (fst r1) agent_dqn in
+  let x := load (fst r2) (snd r2) in
+  let y := restore (snd r1) (learn_agent [(3, 2%nat)] x) in
+  blob_view (fst r2) (snd r2) = blob_view (fst r1) (snd r1) /\ abs (fst y) (snd y) = abs store_dqn agent_dqn.
+Proof. vm_compute. split; reflexivity. Qed.
 
 (* WHAT IS LOST, for ALL agents — a registry whose hook shares the policy's encoder with duplicate-free targets: in the agent
    produced by restoring ANY well-formed file into ANY agent with the file's block keys, every target's hidden block has the size
